@@ -20,8 +20,9 @@ CONSTANTS
  CowIndex = FALSE
  InvAfterDel = FALSE
  NormKey = TRUE
+ LockStyle = "global"
 INIT MInit
 NEXT MNext
 VIEW MView
-INVARIANTS Ok TagExact CacheRLExact CacheCoherent LockSane NoApiTag
+INVARIANTS Ok TagExact CacheRLExact CacheCoherent LockSane NoApiTag TagMutex
 CHECK_DEADLOCK FALSE
